@@ -47,6 +47,7 @@ type Exec struct {
 	Horizon  bool
 	Diverged string
 	maxSteps int
+	pollMs   int
 	steps    int
 	running  atomic.Bool
 }
@@ -215,7 +216,11 @@ func (e *Exec) run() {
 			if !e.allDone() {
 				// threads may wait for something an unmanaged goroutine does: re-poll briefly
 				ok := false
-				for i := 0; i < 200 && !ok; i++ {
+				n := e.pollMs
+				if n <= 0 {
+					n = 20
+				}
+				for i := 0; i < n && !ok; i++ {
 					time.Sleep(time.Millisecond)
 					ids, labels, runEn = e.enabled()
 					ok = len(ids) > 0
@@ -286,8 +291,9 @@ func Explore(o Options, setup func(x *Exec) (check func(x *Exec))) Result {
 		o.NSh = 1
 	}
 	res := Result{Exhaustive: true, BoundDone: o.Bound}
+	noCheck := false
 	runOne := func(prefix []int) *Exec {
-		x := &Exec{yield: make(chan struct{}), prefix: prefix, maxSteps: o.MaxSteps}
+		x := &Exec{yield: make(chan struct{}), prefix: prefix, maxSteps: o.MaxSteps, pollMs: o.DeadlockPollMs}
 		check := setup(x)
 		x.run()
 		res.Executions++
@@ -305,7 +311,7 @@ func Explore(o Options, setup func(x *Exec) (check func(x *Exec))) Result {
 		if x.Deadlock {
 			res.Deadlocks++
 		}
-		if check != nil {
+		if check != nil && !noCheck {
 			check(x)
 		}
 		return x
@@ -346,7 +352,9 @@ func Explore(o Options, setup func(x *Exec) (check func(x *Exec))) Result {
 			}
 		}
 		if o.SelfCheck && res.Executions%64 == 1 {
+			noCheck = true
 			y := runOne(append([]int{}, x.Choices()...))
+			noCheck = false
 			res.Executions--
 			if fmt.Sprint(y.Trace) != fmt.Sprint(x.Trace) {
 				res.Errors = append(res.Errors, "nondeterminism: same schedule, different trace")
